@@ -304,12 +304,19 @@ pub fn stmt_sexp(stmt: &Statement) -> Option<String> {
             };
             let mut haggs = String::from("(haggs");
             let mut hkeys = String::from("(hkeys");
+            let mut hvisit = String::from("(hvisit");
             if let Some(h) = &a.having {
                 let _ = h.visit::<(), _>(&mut |t| {
                     if let ExpressionTree::Aggregate(id, agg) = t {
                         match agg.as_ref() {
-                            Aggregate::GroupKey(col) => hkeys.push_str(&format!(" {}", hexs(&expr_sexp(col)))),
-                            other => haggs.push_str(&format!(" ({} {})", id, agg_kind_sexp(other))),
+                            Aggregate::GroupKey(col) => {
+                                hkeys.push_str(&format!(" {}", hexs(&expr_sexp(col))));
+                                hvisit.push_str(&format!(" (key {})", hexs(&expr_sexp(col))));
+                            }
+                            other => {
+                                haggs.push_str(&format!(" ({} {})", id, agg_kind_sexp(other)));
+                                hvisit.push_str(&format!(" (agg {} {})", id, agg_kind_sexp(other)));
+                            }
                         }
                     }
                     Ok(())
@@ -317,7 +324,8 @@ pub fn stmt_sexp(stmt: &Statement) -> Option<String> {
             }
             haggs.push(')');
             hkeys.push(')');
-            Some(format!("(agg {} {} {} {} {} {} {} {})", items, opt_expr(&a.filter), groupby, opt_expr(&a.having), haggs, hkeys, opt_nat(&a.limit), if a.distinct { 1 } else { 0 }))
+            hvisit.push(')');
+            Some(format!("(agg {} {} {} {} {} {} {} {} {})", items, opt_expr(&a.filter), groupby, opt_expr(&a.having), haggs, hkeys, hvisit, opt_nat(&a.limit), if a.distinct { 1 } else { 0 }))
         }
         _ => None,
     }
